@@ -152,10 +152,10 @@ func inUnicast[M any](senders []ID, me ID, out map[ID]ds.Map[ID, M]) (ds.Map[ID,
 
 type redistArgs struct {
 	label  string
-	prev   []ID           // driving previous holders (qualified in the previous structure)
-	shards map[ID]*Shard  // the shard each party passes as prevShard (absent = nil: lost / never had one)
+	prev   []ID          // driving previous holders (qualified in the previous structure)
+	shards map[ID]*Shard // the shard each party passes as prevShard (absent = nil: lost / never had one)
 	next   accessstructures.Monotone
-	anchor ID             // 0 = none; configured by every party that is NOT a previous holder
+	anchor ID // 0 = none; configured by every party that is NOT a previous holder
 }
 
 type redistResult struct {
